@@ -276,6 +276,21 @@ def run_impl(spec, tap, check_fresh):
             ok = b == want and f == want
         if not ok:
             notes.append({"wrappers": key, "names_of": want, "basename_of": b, "fullname_of": f})
+    # the spelling is a function of the expression, not of where it stands: the same tree with every `ctx`
+    # set to Store / Del (an assignment or `del` target, e.g. `head, *tail = xs`) must be named the same
+    if any(hasattr(n, "ctx") for n in ast.walk(node)):
+        for ctx_cls in (ast.Store, ast.Del):
+            impl.clear_caches_fast()
+            node_c = build_located(spec)
+            for n in ast.walk(node_c):
+                if hasattr(n, "ctx"):
+                    n.ctx = ctx_cls()
+            for key, fn in COMBOS:
+                n0 = len(tap.events)
+                got = _canon(impl.outcome_of(fn, node_c), tap, n0)
+                if got != out[key]:
+                    notes.append({"ctx": key, "context": ctx_cls.__name__, "load": out[key], "got": got})
+                    break
     if check_fresh:
         # structurally equal fresh tree, cold caches, reverse call order
         impl.clear_caches_fast()
@@ -436,7 +451,7 @@ def judge(node, im, notes):
     # memoisation / wrapper consistency
     for nt in notes:
         kind = next(iter(nt))
-        viol.append((f"{ {'memo': 'memo-not-transparent', 'fresh': 'memo-not-transparent', 'wrappers': 'wrappers-inconsistent'}[kind] }:{nt[kind]}", nt))
+        viol.append((f"{ {'memo': 'memo-not-transparent', 'fresh': 'memo-not-transparent', 'wrappers': 'wrappers-inconsistent', 'ctx': 'spelling-depends-on-expression-context'}[kind] }:{nt[kind]}{':' + nt['context'] if kind == 'ctx' else ''}", nt))
     return viol, want, judged_a, flags, st
 
 
